@@ -589,6 +589,9 @@ func (d *Driver) apiCall(in *Inst, o *elObj, a *Action, ev *ApiEvt) {
 		}
 		o.startInFlight++
 		d.mu.Unlock()
+		if in.cfg.CorrID {
+			ctx = context.WithValue(ctx, "correlation_id", fmt.Sprintf("run-%s-%d", in.cfg.ID, o.gen)) //nolint: the library documents a plain string key
+		}
 		err = o.el.Start(ctx)
 		d.mu.Lock()
 		o.startInFlight--
@@ -663,6 +666,9 @@ func (d *Driver) apiCall(in *Inst, o *elObj, a *Action, ev *ApiEvt) {
 		// an application that restarts its election: Start the moment its own Stop has returned
 		_ = o.el.Stop()
 		ctx, cancel := context.WithCancel(context.Background())
+		if in.cfg.CorrID {
+			ctx = context.WithValue(ctx, "correlation_id", fmt.Sprintf("run-%s-%d", in.cfg.ID, o.gen))
+		}
 		if err = o.el.Start(ctx); err == nil {
 			d.mu.Lock()
 			o.cancelStart = cancel
